@@ -16,6 +16,7 @@ func Ops() []*core.Op {
 	ops = append(ops, createOps()...)
 	ops = append(ops, driftOps()...)
 	ops = append(ops, driftPoolsOps()...)
+	ops = append(ops, staticPodsOps()...)
 	for _, o := range ops {
 		o.Prop = "C03"
 	}
